@@ -24,7 +24,11 @@ HERE = os.path.dirname(os.path.dirname(os.path.dirname(os.path.abspath(__file__)
 SO = os.path.join(HERE, "build", "faultfs.so")
 
 OPS = {"write": 1, "rename": 2, "sendfile": 3, "copy_file_range": 4, "open": 5, "unlink": 6, "fsync": 7, "close": 8}
-NAMES = ["out.dat", "ABS", "a b.dat", "é.dat", "a#b.dat", "a?b.dat", "a;b.dat", "c:d.dat", "sub/x.dat", "./rel.dat"]
+NAMES = ["out.dat", "ABS", "a b.dat", "é.dat", "a#b.dat", "a?b.dat", "a;b.dat", "c:d.dat", "sub/x.dat", "./rel.dat",
+         "r%20x.dat", "50%.dat", "a&b=c.dat", "~x.dat"]
+# how the name is handed over: the str itself, a pathlib.Path, the bytes file-system encoding (all accepted by open())
+NAME_KINDS = {"out.dat": ("str", "path", "bytes"), "a#b.dat": ("str", "path", "bytes"), "é.dat": ("str", "path", "bytes"),
+              "ABS": ("str", "path")}
 
 
 def ensure_shim():
@@ -111,6 +115,9 @@ def schedules(tier, counts):
     out.append(("write#1-EIO", [("write", 1, 1, errno.EIO, 0)]))
     out.append(("rename-EACCES", [("rename", 1, 1, errno.EACCES, 0)]))
     out.append(("rename-EXDEV", [("rename", 1, 1, errno.EXDEV, 0)]))
+    # the move is refused every time it is tried (one environment condition: no permission to replace)
+    for e, en in ((errno.EACCES, "EACCES"), (errno.EPERM, "EPERM")):
+        out.append(("rename-%s-persistent" % en, [("rename", k, 1, e, 0) for k in (1, 2, 3)]))
     out.append(("open-dest-EACCES", [("open", 2, 1, errno.EACCES, 0)]))
     out.append(("close#1-EIO", [("close", 1, 1, errno.EIO, 0)]))
     out.append(("close#1-EIO+unlink-EACCES", [("close", 1, 1, errno.EIO, 0), ("unlink", 1, 1, errno.EACCES, 0)]))
@@ -157,7 +164,7 @@ class Runner(object):
             self.c13._reset_bnodes()
         d.serialize(dest, format=fmt)
 
-    def one(self, size, fmt, name, pre, sched, broken=False):
+    def one(self, size, fmt, name, pre, sched, broken=False, kind="str"):
         """returns (verdict dict)"""
         d, expected = self.doc(size, fmt, broken)
         sb = os.path.realpath(tempfile.mkdtemp(prefix="provmc_c17_"))
@@ -182,6 +189,11 @@ class Runner(object):
             for op, nth, action, err, arg in sched:
                 self.lib.faultfs_rule(OPS[op], nth, action, err, arg)
             exc = None
+            if kind == "path":
+                import pathlib
+                dest_arg = pathlib.Path(dest_arg)
+            elif kind == "bytes":
+                dest_arg = os.fsencode(dest_arg)
             try:
                 self.ser(d, fmt, dest_arg)
             except BaseException as e:
@@ -235,13 +247,14 @@ def _work(item):
     logging.disable(logging.CRITICAL)
     if _R is None:
         _R = Runner(item[0])
-    tier, size, fmt, name, pre = item
+    tier, size, fmt, name, pre, kind = item
     res = {"viol": [], "outcomes": collections.Counter(), "n": 0, "sample": None}
-    base = _R.one(size, fmt, name, pre, [])
-    for label, sched in schedules(tier, base["counts"]):
-        v = _R.one(size, fmt, name, pre, sched)
+    base = _R.one(size, fmt, name, pre, [], kind=kind)
+    scheds = schedules(tier, base["counts"]) if base["counts"]["write"] else [("none", [])]
+    for label, sched in scheds:
+        v = _R.one(size, fmt, name, pre, sched, kind=kind)
         res["n"] += 1
-        case = {"size": size, "format": fmt, "name": name, "preexisting": pre, "schedule": label, "rules": sched}
+        case = {"size": size, "format": fmt, "name": name, "name_kind": kind, "preexisting": pre, "schedule": label, "rules": sched}
         if "problem" in v:
             res["viol"].append((v["problem"], case, v))
         else:
@@ -252,9 +265,9 @@ def _work(item):
             res["sample"] = {"case": case, "exception": v["exception"], "syscalls": v["counts"]}
     # serialisation itself fails (0 syscall deviations)
     if fmt in ("json", "xml") and size == "small":
-        v = _R.one(size, fmt, name, pre, [], broken=True)
+        v = _R.one(size, fmt, name, pre, [], broken=True, kind=kind)
         res["n"] += 1
-        case = {"size": size, "format": fmt, "name": name, "preexisting": pre, "schedule": "serialiser-raises", "rules": []}
+        case = {"size": size, "format": fmt, "name": name, "name_kind": kind, "preexisting": pre, "schedule": "serialiser-raises", "rules": []}
         if "problem" in v:
             res["viol"].append((v["problem"], case, v))
         else:
@@ -268,7 +281,8 @@ def real_main(tier, seed):
     import time
     t0 = time.time()
     sizes = ["small", "20kB"] + (["200kB"] if tier == "thorough" else [])
-    items = [(tier, s, f, n, p) for s in sizes for f in ("json", "xml", "rdf", "provn") for n in NAMES for p in (False, True)]
+    items = [(tier, s, f, n, p, k) for s in sizes for f in ("json", "xml", "rdf", "provn") for n in NAMES for p in (False, True)
+             for k in NAME_KINDS.get(n, ("str",))]
     ctx = multiprocessing.get_context("fork")
     viol = {}
     outcomes = collections.Counter()
@@ -281,7 +295,9 @@ def real_main(tier, seed):
             if res["sample"] and len(samples) < 2:
                 samples.append(res["sample"])
             for prob, case, v in res["viol"]:
-                name_class = case["name"] if case["name"] in ("a#b.dat", "a?b.dat", "a;b.dat", "c:d.dat") else "plain-name"
+                name_class = case["name"] if case["name"] in ("a#b.dat", "a?b.dat", "a;b.dat", "c:d.dat", "r%20x.dat") else "plain-name"
+                if case.get("name_kind", "str") != "str":
+                    name_class += "(%s)" % case["name_kind"]
                 sig = "%s:%s:%s" % (prob[1], name_class, case["schedule"].split("#")[0] if case["schedule"] == "none" or "EXDEV" in case["schedule"] else "fault")
                 key = (prob[0], sig)
                 if key not in viol:
@@ -292,7 +308,7 @@ def real_main(tier, seed):
         vs.append({"clause": clause, "sig": sig, "count": n,
                    "detail": {"case": case, "exception": v["exception"], "syscalls": v["counts"], "info": prob[2] if len(prob) > 2 else None},
                    "history": ["c17", case["size"], case["format"], case["name"], case["preexisting"], case["schedule"],
-                               [list(r) for r in case["rules"]]],
+                               [list(r) for r in case["rules"]], case.get("name_kind", "str")],
                    "snippet": "d.serialize(%r, format=%r)  # with faults %r injected at the libc boundary" % (
                        case["name"], case["format"], case["rules"])})
     cov = {
@@ -305,7 +321,7 @@ def real_main(tier, seed):
                  "non-trivial = at least one deviation injected" % (4, len(sizes), len(NAMES), 2 if tier == "thorough" else 1)),
         "samples": samples, "exhaustive": True, "outcomes": dict(outcomes),
         "deviation_bound_completed": 2 if tier == "thorough" else 1,
-        "destination_names": NAMES,
+        "destination_names": NAMES, "name_kinds": NAME_KINDS,
     }
     return {"property": "C17", "coverage": cov, "violations": vs,
             "assumptions": ["libc interposition (LD_PRELOAD) sees every write/rename/sendfile/open/unlink CPython issues "
@@ -333,8 +349,9 @@ def replay(item, tier, seed):
             os.unlink(outp)
             os.unlink(inp)
     r = Runner(tier)
-    _, size, fmt, name, pre, label, rules = h
-    v = r.one(size, fmt, name, pre, [tuple(x) for x in rules], broken=(label == "serialiser-raises"))
+    _, size, fmt, name, pre, label, rules = h[:7]
+    kind = h[7] if len(h) > 7 else "str"
+    v = r.one(size, fmt, name, pre, [tuple(x) for x in rules], broken=(label == "serialiser-raises"), kind=kind)
     vs = []
     if "problem" in v:
         vs.append({"clause": v["problem"][0], "sig": item.get("sig", v["problem"][1]), "count": 1,
